@@ -26,7 +26,8 @@ def base_statements(seed, n_templates):
 
 
 class Workload:
-    def __init__(self, ctx, n_templates, n_mut, n_soup, n_noise=True, dialects=DIALECTS, max_nest=40, n_lexeme=0, n_gram=0):
+    def __init__(self, ctx, n_templates, n_mut, n_soup, n_noise=True, dialects=DIALECTS, max_nest=40, n_lexeme=0, n_gram=0, lexeme_extra=False):
+        self.lexeme_extra = lexeme_extra
         self.n_lexeme = n_lexeme
         self.n_gram = n_gram
         self.ctx = ctx
@@ -114,14 +115,29 @@ class Workload:
             from mindsdb_sql.parser.ast.select.identifier import RESERVED_KEYWORDS
             ids = sqlgen.hostile_identifiers(monitors.lexer_classes()['mindsdb'], sorted(RESERVED_KEYWORDS))
             r = core.rng_for(ctx.seed, 'parsework', 'lexeme')
-            npos = len(sqlgen.IDENT_POSITIONS)
+            positions = sqlgen.IDENT_POSITIONS + (sqlgen.IDENT_POSITIONS_EXTRA if self.lexeme_extra else [])
+            npos = len(positions)
             for j in range(self.n_lexeme):
                 x = ids[j % len(ids)] if j < len(ids) * 2 else r.choice(ids)
-                pos = sqlgen.IDENT_POSITIONS[(j // len(ids) + j) % npos] if j < len(ids) * 2 else r.choice(sqlgen.IDENT_POSITIONS)
+                pos = positions[(j // len(ids) + j) % npos] if j < len(ids) * 2 else r.choice(positions)
                 d = self.dialects[0] if j % 4 else self.dialects[1 + (j // 4) % 2]
                 if ctx.mine(idx):
-                    yield idx, 'lexeme', d, pos.format(x=x)
+                    t = pos.format(x=x)
+                    if self.lexeme_extra and j % 5 == 3 and d == self.dialects[0] and '"' not in x:
+                        # the mindsdb dialect also reads double-quoted names
+                        yield idx, 'lexeme-dq', d, t.replace('`', '"')
+                    else:
+                        yield idx, 'lexeme', d, t
                 idx += 1
+
+        # class 6b: names made of separators only, in every position, in both quotings
+        if self.n_lexeme and self.lexeme_extra:
+            for x in ['.', '..', '...', '. .', ' ', '  ', '.a', 'a.', '..a', 'a..b', '-', '$', '1', '0.5', '1e5', '*']:
+                for pos in positions:
+                    for q in ('`', '"'):
+                        if ctx.mine(idx):
+                            yield idx, 'lexeme-sep', self.dialects[0], pos.format(x=x).replace('`', q)
+                        idx += 1
 
         # class 7: grammar-derived sentences of the dialect under test (+ one token-level mutation of some of them)
         if self.n_gram:
